@@ -95,16 +95,40 @@ func runQueueCase(qc QueueCase) ([]rig.Failure, string) {
 	}
 
 	api := client.ProxyV1alpha1().UpstreamClusters()
+	lister := factory.Proxy().V1alpha1().UpstreamClusters().Lister()
 	ctx := context.TODO()
 	ver := 1
+	// the fake clientset's watch channel holds 100 events and panics when it is full: never more than 40 writes ahead
+	// of what the informer has delivered (delivery = enqueueing, so the events still arrive as one burst)
+	written, stuck := 0, false
+	pace := func(o *proxyv1alpha1.UpstreamCluster) {
+		written++
+		if written%40 != 0 {
+			return
+		}
+		if !waitFor(20*time.Second, func() bool {
+			cur, err := lister.Get(o.Name)
+			return err == nil && cur.ResourceVersion == o.ResourceVersion
+		}) {
+			stuck = true
+		}
+	}
 	create := func(o *proxyv1alpha1.UpstreamCluster) error {
-		_, err := api.Create(ctx, o, metav1.CreateOptions{})
+		var err error
+		if _, p := rig.Recover(func() { _, err = api.Create(ctx, o, metav1.CreateOptions{}) }); p {
+			stuck = true
+		}
 		refApply(o.DeepCopy())
+		pace(o)
 		return err
 	}
 	update := func(o *proxyv1alpha1.UpstreamCluster) error {
-		_, err := api.Update(ctx, o, metav1.UpdateOptions{})
+		var err error
+		if _, p := rig.Recover(func() { _, err = api.Update(ctx, o, metav1.UpdateOptions{}) }); p {
+			stuck = true
+		}
 		refApply(o.DeepCopy())
+		pace(o)
 		return err
 	}
 
@@ -121,7 +145,7 @@ func runQueueCase(qc QueueCase) ([]rig.Failure, string) {
 		create(ucObj(n, ver, nil, "tok-"+n))
 	}
 	all := append([]string{victim, bystander}, names...)
-	if !waitFor(60*time.Second, func() bool {
+	if !waitFor(8*time.Second, func() bool {
 		for _, n := range all {
 			if _, ok := ctl.Get(n); !ok {
 				return false
@@ -129,7 +153,14 @@ func runQueueCase(qc QueueCase) ([]rig.Failure, string) {
 		}
 		return true
 	}) {
-		return nil, "start-not-converged"
+		n := 0
+		for _, x := range all {
+			if _, ok := ctl.Get(x); ok {
+				n++
+			}
+		}
+		_, ea := lister.Get(victim)
+		return nil, fmt.Sprintf("start-not-converged(%d/%d,lister:%v)", n, len(all), ea)
 	}
 	ready := func(name string, up int) bool {
 		ci, ok := ctl.Get(name)
@@ -161,12 +192,17 @@ func runQueueCase(qc QueueCase) ([]rig.Failure, string) {
 	}
 	events := qc.Rounds*len(names) + 1
 	ver++
+	if stuck {
+		rv.finish()
+		rb.finish()
+		return nil, "informer-did-not-keep-up"
+	}
 	t0 := time.Now()
 	switch qc.Kind {
 	case "drop-endpoint":
 		update(ucObj(victim, ver, nil, "tok-a-q"))
 	default:
-		api.Delete(ctx, victim, metav1.DeleteOptions{})
+		rig.Recover(func() { api.Delete(ctx, victim, metav1.DeleteOptions{}) })
 		refDelete(ucObj(victim, ver, nil, "tok-a-q"))
 	}
 	effective := func(c *controllers.UpstreamClusterController) bool {
